@@ -17,6 +17,7 @@
             mode 1: 11: Allocate*       I = u :: bounds (u = 4: histogram, bounds = AsValues())
                     12: report through handle [h; kind; a; b] (1 count a, 2 gauge a, 3 observe a, b times)
                     13: Register*       I = u :: ty :: bounds     S = name :: help :: keys
+                    14: [r] the following calls go to reporter r on the same registry
    observed = 10 [code] per Allocate*/Register* (mode 1), 11 classes given to the callback,
               20 one per gathered series, 29 [number of Gather errors]. *)
 From Coq Require Import ZArith List Bool.
@@ -83,6 +84,13 @@ Definition rop_of_ev (e : ev) : list rop :=
   | _, _, _ => []
   end.
 
+(* 14 [r]: the following calls are made on reporter r (same registry, same options) *)
+Definition xop_of_ev (e : ev) : list xop :=
+  match ek e, ei e with
+  | 14, [r] => [XSwitch (Z.to_nat r)]
+  | _, _ => map XOp (rop_of_ev e)
+  end.
+
 Definition out_code (merge : bool) (o : outcome) : list ev :=
   match o with
   | OMetric (MReal _) => [Ev 10 [0] []]
@@ -143,7 +151,7 @@ Definition check (c : gcase) : Z :=
   let res : state * list outcome :=
     if scope_mode
     then (rs (fold_left (tstep cf) (flat_map top_of_ev inp) (TS (init pre) [])), [])
-    else rrun cf (init pre) (flat_map rop_of_ev inp) in
+    else let r := xrun cf (xinit pre) (flat_map xop_of_ev inp) in (xs (fst r), snd r) in
   let s := fst res in
   let o_outs := filter (fun e => ek e =? 10) obs in
   let o_cb := filter (fun e => ek e =? 11) obs in
